@@ -6,6 +6,7 @@ CFG = dict(
     stages=[
         seq("tsan", "tsan", "c20_threads.c", 600, 40000, wrap=True, per_proc_timeout=1800, nprocs=12),
         seq("asanh", "asanh", "c20_threads.c", 600, 40000, wrap=True, leak=True, per_proc_timeout=1800, nprocs=12),
+        seq("tsanrel", "tsanrel", "c20_threads.c", 600, 40000, wrap=True, per_proc_timeout=1800, nprocs=12),  # -O2 under TSan
     ],
     rule=("case = one scenario of 1-56 real threads: manual and managed threads launched by the main thread, managed "
           "threads launched by other threads (depth <= 3), 0-5 at-exit registrations each, PRNG sleeps/yields so that every "
@@ -21,7 +22,8 @@ CFG = dict(
     min_counts={"any": {"join_all_called_before_all_finished": 30, "managed_thread_launched_by_thread": 30,
                         "pthread_create_failed": 20, "several_at_exit_callbacks": 50,
                         "library_reinit_with_managed_threads_outstanding": 20, "timed_join_all_gave_up": 20,
-                        "external_decrement_while_join_all_blocked": 20}},
+                        "external_decrement_while_join_all_blocked": 20,
+                        "at_exit_registered_inside_call_once": 50}},
 )
 
 META = dict(
